@@ -11,14 +11,16 @@ ROOT = os.path.dirname(os.path.abspath(__file__))
 tag, prefix = sys.argv[1], sys.argv[2]
 props = sys.argv[3:] or ["C%02d" % k for k in range(1, 21)]
 ORIGIN = {
+    "r5": "fresh sub-agent, round 5: given only the property (title, statement, quantifier, why the tests cannot settle it, anchor list) and a scratch worktree — no description of any checker — with the request for three changes in three different mechanisms: one triggered by a multi-step API sequence, one by an unusual but legitimate input, one made of two cooperating sites",
     "r4": "fresh sub-agent, round 4: given the property text, a scratch worktree and a detailed description of everything the strengthened checker sweeps (reference models, length/bit/content sweeps, grammar enumeration, fixpoint histories, constructed signatures, tree deviations) with the request for a one- or two-line slip in existing code that depends on three things at once, on counts or depths beyond the sweeps, on two interacting API objects, on repeated operations, or on a forgotten public entry point",
     "r3": "fresh sub-agent, round 3: given the property text, a scratch worktree and a description of the strengthened checker's sweeps (lengths to ~1100, 2^k/2^k-1 fields, opcode pairs, fixpoint histories) with the request to evade them through content-, relation-, position- or history-dependent triggers",
 }
 for p in props:
-    for k in ("1", "2"):
+    for k in ("1", "2", "3"):
         src = os.path.join(prefix + p, "OUT", k)
         if not os.path.exists(os.path.join(src, "patch.diff")):
-            print("missing", src)
+            if k != "3":
+                print("missing", src)
             continue
         dst = os.path.join(ROOT, "seeded", "%s-%s-%s" % (p, tag, k))
         os.makedirs(dst, exist_ok=True)
